@@ -166,7 +166,7 @@ def main(argv=None):
         fucs.append({'fuc': r['ident'], 'file': r.get('file'), 'function': r.get('qual'), 'sha256_16': r.get('sha'),
                      'paths': r['paths'], 'paths_cut_or_infeasible': r['killed'], 'obligations': len(r['obligations']),
                      'clause': r.get('clause', ''), 'secs': round(r['secs'], 2), 'kind': 'bounded' if is_bounded else 'deductive',
-                     'handler_decorators': r.get('decorators', [])})
+                     'handler_decorators': r.get('decorators', []), 'vacuity': r.get('vacuity')})
         errors.extend('%s: %s' % (r['ident'], e) for e in r['errors'])
         undecided.extend('%s: %s' % (r['ident'], u) for u in r['undecided'])
         if r['missing_cover']:
